@@ -35,7 +35,10 @@ struct unique_ptr {
 	}
 
 	unique_ptr &operator=(unique_ptr &&p) {
-		swap(*this, p);
+		// Take p over first: the object that we hold so far is destroyed when this function
+		// returns, not parked in p (p may be a member of that very object).
+		unique_ptr taken{std::move(p)};
+		swap(*this, taken);
 		return *this;
 	}
 
